@@ -241,9 +241,13 @@ func matchStatement(cur Statement, node ipld.Node) (_ matchResult, leafMost Stat
 	panic(fmt.Errorf("unimplemented statement kind: %s", cur.Kind()))
 }
 
-// deepEqual is datamodel.DeepEqual, except that it reports false instead of
-// panicking when a node cannot be read (DeepEqual panics on integers above
-// MaxInt64, which DAG-CBOR can carry and which are outside the safe bounds anyway).
+// deepEqual is datamodel.DeepEqual, except that:
+//   - maps are compared as unordered sets of entries (DeepEqual compares them in
+//     iteration order, so the same map built locally - keys sorted alphabetically -
+//     and decoded from DAG-CBOR - keys in length-first order - would differ);
+//   - it reports false instead of panicking when a node cannot be read (DeepEqual
+//     panics on integers above MaxInt64, which DAG-CBOR can carry and which are
+//     outside the safe bounds anyway).
 func deepEqual(expected ipld.Node, actual ipld.Node) (equal bool) {
 	defer func() {
 		if r := recover(); r != nil {
@@ -251,7 +255,48 @@ func deepEqual(expected ipld.Node, actual ipld.Node) (equal bool) {
 		}
 	}()
 
-	return datamodel.DeepEqual(expected, actual)
+	if expected == nil || actual == nil || expected.Kind() != actual.Kind() {
+		return datamodel.DeepEqual(expected, actual)
+	}
+
+	switch expected.Kind() {
+	case datamodel.Kind_Map:
+		if expected.Length() != actual.Length() {
+			return false
+		}
+		it := expected.MapIterator()
+		for !it.Done() {
+			k, v, err := it.Next()
+			if err != nil {
+				return false
+			}
+			other, err := actual.LookupByNode(k)
+			if err != nil || !deepEqual(v, other) {
+				return false
+			}
+		}
+		return true
+
+	case datamodel.Kind_List:
+		if expected.Length() != actual.Length() {
+			return false
+		}
+		itE, itA := expected.ListIterator(), actual.ListIterator()
+		for !itE.Done() && !itA.Done() {
+			_, e, err := itE.Next()
+			if err != nil {
+				return false
+			}
+			_, a, err := itA.Next()
+			if err != nil || !deepEqual(e, a) {
+				return false
+			}
+		}
+		return true
+
+	default:
+		return datamodel.DeepEqual(expected, actual)
+	}
 }
 
 // isOrdered compares two IPLD nodes and returns true if they satisfy the given ordering function.
